@@ -16,6 +16,10 @@ from scoda.sequences.sequence import Sequence  # noqa: E402
 
 KEYS = [k.value for k in Key]
 TMPDIR = None
+# the relative minor of each major key (tonic a minor third below): the two names denote the same key signature
+REL_MINOR = {"C": "Am", "G": "Em", "D": "Bm", "A": "F#m", "E": "C#m", "B": "G#m", "F#": "D#m", "C#": "A#m",
+             "F": "Dm", "Bb": "Gm", "Eb": "Cm", "Ab": "Fm", "Db": "Bbm", "Gb": "Ebm", "Cb": "Abm"}
+MAJOR_OF = {v: k for k, v in REL_MINOR.items()}
 
 
 def tmpfile():
@@ -129,7 +133,8 @@ def write_file(res, tracks, path):
             elif e["ty"] == "ts":
                 t.append(mido.MetaMessage("time_signature", numerator=e["n"], denominator=e["d"], time=e["dt"]))
             elif e["ty"] == "ks":
-                t.append(mido.MetaMessage("key_signature", key=e["k"], time=e["dt"]))
+                # a file may name the key by its relative minor: the same signature (k stays the major name the spec uses)
+                t.append(mido.MetaMessage("key_signature", key=e.get("kfile", e["k"]), time=e["dt"]))
             elif e["ty"] == "text":
                 t.append(mido.MetaMessage("text", text="x", time=e["dt"]))
             elif e["ty"] == "pw":        # channel events the library has no counterpart for: only their delta times matter
@@ -158,7 +163,7 @@ def parse_file(path):
             elif m.type == "time_signature":
                 evs.append(P.ts(T, m.numerator, m.denominator, -1))
             elif m.type == "key_signature":
-                evs.append(P.ks(T, m.key, -1))
+                evs.append(P.ks(T, MAJOR_OF.get(m.key, m.key), -1))     # the signature, named by its major key
         out.append(evs)
     return mf.ticks_per_beat, out
 
@@ -250,7 +255,8 @@ def random_track(rng, ch, nmax=8, sig=True, ones=False):
         elif sig and r < .93:
             evs.append({"ty": "ts", "n": rng.choice([2, 3, 4, 6]), "d": rng.choice([4, 8]), "dt": dt})
         elif sig:
-            evs.append({"ty": "ks", "k": rng.choice(KEYS), "dt": dt})
+            k = rng.choice(KEYS)
+            evs.append({"ty": "ks", "k": k, "dt": dt, **({"kfile": REL_MINOR[k]} if rng.random() < .35 else {})})
         else:
             evs.append({"ty": "text", "dt": dt})
     dangling = rng.random() < .2          # an ill-formed track: one note is never closed / a note-off closes nothing
